@@ -200,6 +200,41 @@ Proof.
   rewrite <- (fsum_Rsum (map snd w1)) in Q. exact Q.
 Qed.
 
+(* the disk rule normalised by _cylinder_quadrature_from_product: same nodes, positive weights that sum to PI *)
+Lemma norm_disk_nodes (disk : list (R * R * R)) : map fst (norm_disk RO disk) = map fst disk.
+Proof. unfold norm_disk. rewrite map_map. reflexivity. Qed.
+Lemma Rsum3_pos (l : list (R * R * R)) : Forall (fun p => 0 < snd p) l -> l <> [] -> 0 < Rsum (map snd l).
+Proof.
+  induction l as [| a l IH]; [contradiction|]. intros Hw _. inversion Hw; subst.
+  destruct l as [| b l]; [cbn; lra|].
+  assert (0 < Rsum (map snd (b :: l))) by (apply IH; [assumption | discriminate]).
+  change (0 < snd a + Rsum (map snd (b :: l))). lra.
+Qed.
+Lemma norm_disk_sum (disk : list (R * R * R)) :
+  Forall (fun d => 0 < snd d) disk -> disk <> [] ->
+  Forall (fun d => 0 < snd d) (norm_disk RO disk) /\ Rsum (map snd (norm_disk RO disk)) = PI.
+Proof.
+  intros Hw Hne. pose proof (Rsum3_pos disk Hw Hne) as Hs. pose proof PI_RGT_0 as Hpi.
+  unfold norm_disk. cbv zeta. rewrite fsum_Rsum. ops.
+  set (S := Rsum (map snd disk)) in *.
+  split.
+  - apply Forall_forall. intros d Hin. apply in_map_iff in Hin. destruct Hin as [p [<- Hp]].
+    rewrite Forall_forall in Hw. cbn [snd]. apply Rmult_lt_0_compat; [exact (Hw _ Hp)|].
+    apply Rdiv_lt_0_compat; assumption.
+  - rewrite map_map. cbn [snd].
+    rewrite (Rsum_map_ext _ (fun p : R * R * R => (PI / S) * snd p)) by (intro; ring).
+    rewrite Rsum_map_scale. fold S. field. lra.
+Qed.
+Lemma norm_disk_nodes_ok (disk : list (R * R * R)) :
+  Forall (fun d => fst (fst d) * fst (fst d) + snd (fst d) * snd (fst d) <= 1) disk ->
+  Forall (fun d => fst (fst d) * fst (fst d) + snd (fst d) * snd (fst d) <= 1) (norm_disk RO disk).
+Proof.
+  intro H. unfold norm_disk. cbv zeta. apply Forall_forall. intros d Hin. apply in_map_iff in Hin.
+  destruct Hin as [p [<- Hp]]. rewrite Forall_forall in H. cbn [fst]. exact (H _ Hp).
+Qed.
+Lemma norm_disk_nonempty (disk : list (R * R * R)) : disk <> [] -> norm_disk RO disk <> [].
+Proof. destruct disk; [contradiction | discriminate]. Qed.
+
 Theorem weights_positive md (c : cylinder RO) quad :
   0 < cy_r c -> 0 < cy_h c -> Forall (fun q => 0 < snd q) quad ->
   Forall (fun pw => 0 < snd pw) (quadrature RO md c quad).
@@ -228,6 +263,16 @@ Corollary weights_sum_volume md (c : cylinder RO) (disk : list (R * R * R)) (lin
   Rsum (map snd disk) = PI -> Rsum (map snd line) = 2 ->
   Rsum (map snd (quadrature RO md c (product_rule RO disk line))) = cyl_volume (cy_r c) (cy_h c).
 Proof. intros Hd Hl. rewrite weights_sum, Hd, Hl. unfold cyl_volume. field. Qed.
+
+(* _cylinder_quadrature_from_product normalises the disk weights: the placed weights sum to the volume
+   for ANY positive disk table, whatever its rounding *)
+Corollary weights_sum_volume_normalised md (c : cylinder RO) (disk : list (R * R * R)) (line : list (R * R)) :
+  Forall (fun d => 0 < snd d) disk -> disk <> [] -> Rsum (map snd line) = 2 ->
+  Rsum (map snd (quadrature RO md c (cyl_product_rule RO disk line))) = cyl_volume (cy_r c) (cy_h c).
+Proof.
+  intros Hw Hne Hl. unfold cyl_product_rule. apply weights_sum_volume; [|exact Hl].
+  exact (proj2 (norm_disk_sum disk Hw Hne)).
+Qed.
 
 (* with the table sums only approximately pi and 2 *)
 Corollary weights_sum_volume_approx md (c : cylinder RO) (disk : list (R * R * R)) (line : list (R * R)) ed el :
